@@ -29,6 +29,9 @@ type FlowSpec struct {
 	Family []*ssa.Function
 	// NoInter disables following calls to repository functions into their bodies.
 	NoInter bool
+	// Use (optional): the instruction that consumes the value. Alternatives of a phi that
+	// cannot reach it (see PhiEdgeReaches) are not considered.
+	Use ssa.Instruction
 	// Visit (optional) is told about every call the walk passes through (Through calls
 	// and entered helpers), with the frame in which the call occurs.
 	Visit func(c ssa.CallInstruction, fr *Frame)
@@ -232,6 +235,17 @@ func derives(v ssa.Value, s FlowSpec, seen map[seenKey]bool, depth int, fr *Fram
 	}
 	switch x := v.(type) {
 	case *ssa.Phi:
+		if s.Use != nil && fr == nil && s.Use.Parent() == x.Parent() {
+			var live []ssa.Value
+			for i, e := range x.Edges {
+				if PhiEdgeReaches(x, i, s.Use) {
+					live = append(live, e)
+				}
+			}
+			if len(live) > 0 {
+				return alts(live)
+			}
+		}
 		return alts(x.Edges)
 	case *ssa.Extract:
 		if call, ok := x.Tuple.(*ssa.Call); ok {
@@ -487,8 +501,13 @@ func constElems(x ssa.Value, fr *Frame, depth int) ([]string, bool) {
 			return constElems(arg, fr.Parent, depth+1)
 		}
 	case *ssa.UnOp:
-		// load of a whole array from an alloc
+		// load of a whole array from an alloc, or of a package-level list
 		return constElems(c.X, fr, depth+1)
+	case *ssa.Global:
+		if l, ok := globalStringLists[c]; ok {
+			return append([]string(nil), l...), true
+		}
+		return nil, false
 	case *ssa.Alloc:
 		var out []string
 		for _, ref := range *c.Referrers() {
@@ -653,4 +672,78 @@ func StructFieldValue(v ssa.Value, fr *Frame, field string, depth int) (val ssa.
 		return StructFieldValue(x.Tuple, fr, field, depth+1)
 	}
 	return nil, nil, false
+}
+
+// Tri is a three-valued answer.
+type Tri int
+
+const (
+	No Tri = iota
+	Yes
+	Unknown
+)
+
+func (t Tri) String() string { return [...]string{"no", "yes", "unknown"}[t] }
+
+// Derives3 is DerivesFrom with a three-valued answer: Yes when the value derives from a
+// source (as DerivesFrom); No when the walk reached only origins it understands (parameters
+// of the analysed function, constants, fresh allocations, results of calls into other
+// modules) and none of them is a source; Unknown when it met something it cannot see through
+// (a repository call it could not enter, an interface call, a global, a free variable, an
+// unsupported instruction). Rules alarm only on No.
+func Derives3(v ssa.Value, spec FlowSpec) Tri {
+	return Derives3In(v, nil, spec)
+}
+
+func Derives3In(v ssa.Value, fr *Frame, spec FlowSpec) Tri {
+	if derives(v, spec, map[seenKey]bool{}, 0, fr) {
+		return Yes
+	}
+	// second walk: is every origin understood?
+	opaque := false
+	probe := spec
+	probe.All = false
+	probe.IsSourceIn = nil
+	probe.IsSource = func(x ssa.Value) bool {
+		switch y := x.(type) {
+		case *ssa.Global, *ssa.FreeVar, *ssa.Lookup, *ssa.Next, *ssa.TypeAssert:
+			opaque = true
+		case *ssa.Call:
+			if spec.Through != nil && spec.Through(y) != nil {
+				return false
+			}
+			if y.Call.IsInvoke() {
+				opaque = true
+				return false
+			}
+			if callee := y.Call.StaticCallee(); callee != nil && callee.Pkg != nil && callee.Pkg.Pkg != nil && strings.HasPrefix(callee.Pkg.Pkg.Path(), ModPath) {
+				if Followable(y, nil) == nil {
+					opaque = true
+				}
+			} else if callee == nil {
+				opaque = true // dynamic call
+			}
+		}
+		return false
+	}
+	derives(v, probe, map[seenKey]bool{}, 0, fr)
+	if opaque {
+		return Unknown
+	}
+	return No
+}
+
+// CheckDerives records a provenance obligation with the three-valued policy: discharged on
+// Yes, violation on No, undecided on Unknown.
+func (c *Ctx) CheckDerives(v ssa.Value, fr *Frame, spec FlowSpec, rule, construct, pos, okDetail, failDetail string) Tri {
+	t := Derives3In(v, fr, spec)
+	switch t {
+	case Yes:
+		c.Ok(rule, construct, pos, okDetail)
+	case No:
+		c.Fail(rule, construct, pos, failDetail)
+	default:
+		c.add(rule, construct, pos, Undecided, "provenance not fully resolved: "+failDetail)
+	}
+	return t
 }
